@@ -112,7 +112,7 @@ def main():
         "setup_cmd": f"cd /verif/vcheck && {GOENV} go build -o /verif/bin/vcheck . && {GOENV} /verif/bin/vcheck warm",
         "hooks": {
             "guard": "verif",
-            "enable": "go test -c -tags verif -overlay <json generated per run from /repo's working tree> (white-box drivers injected as zz_verif_*_test.go, os/sync imports of package snaps redirected to shims; nothing committed in /repo)",
+            "enable": "go test -c -tags verif -overlay <json generated per run from /repo's working tree> (white-box drivers injected as zz_verif_*_test.go plus one non-test helper zz_verif_helper.go, os/sync imports of package snaps redirected to shims; nothing committed in /repo)",
             "baseline_off_cmd": f"cd /repo && {GOENV} go test -vet=off -count=1 -timeout 25m ./...",
             "source_commits": [],
             "add_only": True,
